@@ -7,8 +7,10 @@ import (
 	"testing"
 
 	"verif/corp"
+	"verif/cs"
 	"verif/eng"
 	"verif/rec"
+	"verif/wv"
 )
 
 // C17 Non-canonical encodings of proof elements are rejected everywhere.
@@ -22,7 +24,12 @@ type c17Case struct {
 	K    int    `json:"k"`
 	Leaf string `json:"leaf"`
 	Off  string `json:"offset_k"` // multiple of p added
+	// Backend "r1cs": the whole circuit compiled with gnark's R1CS builder (commit range checker, as
+	// deployed) and the re-encoded witness handed to gnark's solver
+	Backend string `json:"backend,omitempty"`
 }
+
+var c17Compiled = map[string]*cs.System{}
 
 func c17Offsets(v *big.Int) map[string]*big.Int {
 	kmax := new(big.Int).Sub(bigR, big.NewInt(1))
@@ -47,6 +54,28 @@ func c17Run(c c17Case) (viol bool, desc string, res eng.Result) {
 	x := new(big.Int).Mul(k, bigP)
 	x.Add(x, rn.orig[i])
 	muts := map[int]*big.Int{i: x}
+	if c.Backend != "" {
+		key := fmt.Sprintf("%s/%d", c.Base, c.K)
+		sys := c17Compiled[key]
+		if sys == nil {
+			var err error
+			sys, err = cs.CompileCircuit(cs.R1CS, cs.MechCommit, rn.in.PlainTemplate())
+			if err != nil {
+				res.Outcome, res.Msg = eng.Refused, err.Error()
+				return true, "compile refused: " + err.Error(), res
+			}
+			c17Compiled[key] = sys
+		}
+		wv.Set(rn.vals[i], x)
+		serr := sys.SolveCircuit(rn.asg, cs.TolerantHints()...)
+		wv.Set(rn.vals[i], rn.orig[i])
+		if serr == nil {
+			res.Outcome = eng.Accept
+			return true, fmt.Sprintf("%s compiled to R1CS (commit checker): leaf %s = %s + %s*p is accepted by gnark's solver", rn.in.Name(), c.Leaf, rn.orig[i], c.Off), res
+		}
+		res.Outcome, res.Msg = eng.Reject, truncate(serr.Error(), 80)
+		return false, "", res
+	}
 	res = rn.run(muts, eng.Options{Mode: eng.ModeNative})
 	if res.Outcome != eng.Accept {
 		return false, "", res
@@ -61,7 +90,7 @@ func c17Run(c c17Case) (viol bool, desc string, res eng.Result) {
 func TestC17(t *testing.T) {
 	r := rec.New("C17")
 	defer r.Flush()
-	r.Rule("every Goldilocks-valued proof leaf position (schema walk of the proof: openings, initial-tree leaf elements, step evaluations, final-polynomial coefficients, PoW witness; ~10.9k per proof) of the listed instances x offset k*p for k in {1, 2, 2^64, largest k keeping the value < r}; deterministic enumeration sharded by position (quick: all positions of A1 with k=1, every 7th position of B1 and every 23rd of the others with a rotating offset; thorough: all positions x all four offsets x all five proofs).  Oracle: whole VerifierCircuit must not ACCEPT (candidates re-checked under bit decomposition).  Every case is non-trivial (offset >= p changes the encoding, not the residue); distinct = (instance, leaf, offset).")
+	r.Rule("every Goldilocks-valued proof leaf position (schema walk of the proof: openings, initial-tree leaf elements, step evaluations, final-polynomial coefficients, PoW witness; ~10.9k per proof) of the listed instances x offset k*p for k in {1, 2, 2^64, largest k keeping the value < r}; deterministic enumeration sharded by position (quick: on A1 every position outside the query rounds, every position of query rounds 0, 13 and 27 and every 5th position of the other rounds with k=1; every 7th position of B1 and every 23rd of the others with a rotating offset; thorough: all positions x all four offsets x all five proofs).  Additionally one position of every leaf kind is re-encoded on the whole circuit compiled to R1CS with the commit range checker (one query round) and handed to gnark's solver.  Oracle: whole VerifierCircuit must not ACCEPT (candidates re-checked under bit decomposition).  Every case is non-trivial (offset >= p changes the encoding, not the residue); distinct = (instance, leaf, offset).")
 	r.Assume("engine native flavour has exact range-check semantics (C06)", "the range-check sweep is evaluated before anything else, so a rejected case costs milliseconds")
 
 	var rp c17Case
@@ -88,7 +117,13 @@ func TestC17(t *testing.T) {
 				continue
 			}
 			pos++
-			if pos%stride != 0 {
+			// stride 0 = the quick tier's stratified selection: every position outside the query rounds,
+			// every position of the first, a middle and the last round, every 5th position elsewhere
+			if stride == 0 {
+				if !(l.Round < 0 || l.Round == 0 || l.Round == 13 || l.Round == 27 || pos%5 == 0) {
+					continue
+				}
+			} else if pos%stride != 0 {
 				continue
 			}
 			for _, off := range offs(pos) {
@@ -96,7 +131,7 @@ func TestC17(t *testing.T) {
 				if !rec.Mine(item) {
 					continue
 				}
-				c := c17Case{base, 28, l.Name, off}
+				c := c17Case{Base: base, K: 28, Leaf: l.Name, Off: off}
 				viol, d, res := c17Run(c)
 				sites[res.Site]++
 				r.Case(l.Kind+"/k="+off, true, fmt.Sprint(c), func() any {
@@ -114,10 +149,36 @@ func TestC17(t *testing.T) {
 		}
 		r.Exhaustive(true)
 	} else {
-		do("A1", 1, func(int) []string { return []string{"1"} })
+		do("A1", 0, func(int) []string { return []string{"1"} })
 		do("B1", 7, func(p int) []string { return []string{c17OffsetNames[p%4]} })
 		for _, b := range []string{"A2", "B2", "B3"} {
 			do(b, 23, func(p int) []string { return []string{c17OffsetNames[(p/23)%4]} })
+		}
+	}
+	// one position of every Goldilocks leaf kind on the circuit compiled for the deployed backend
+	if rec.Mine(7) || rec.Thorough() && rec.Mine(8) {
+		base := "A1"
+		if !rec.Mine(7) {
+			base = "B1"
+		}
+		rn := getRunner(base, 1)
+		seen := map[string]int{}
+		quickKinds := map[string]bool{"Proof_Openings_Wires": true, "Proof_Openings_PlonkZsNext": true, "Proof_Openings_QuotientPolys": true, "Proof_OpeningProof_PowWitness": true, "Proof_OpeningProof_FinalPoly_Coeffs": true,
+			"Proof_OpeningProof_QueryRoundProofs_InitialTreesProof_EvalsProofs[0]_Elements": true, "Proof_OpeningProof_QueryRoundProofs_InitialTreesProof_EvalsProofs[3]_Elements": true, "Proof_OpeningProof_QueryRoundProofs_Steps[1]_Evals": true}
+		for _, l := range rn.leaves {
+			if !c17Eligible(l.Name) || seen[l.Kind] >= 1 || (!rec.Thorough() && !quickKinds[l.Kind]) {
+				continue
+			}
+			seen[l.Kind]++
+			off := c17OffsetNames[len(seen)%3]
+			c := c17Case{Base: base, K: 1, Leaf: l.Name, Off: off, Backend: "r1cs"}
+			viol, d, res := c17Run(c)
+			r.Case("compiled-r1cs-commit/"+l.Kind, true, fmt.Sprint(c), func() any {
+				return map[string]any{"case": c, "solver": res.Outcome.String(), "error": res.Msg}
+			})
+			if viol {
+				r.Fail(t, fmt.Sprintf("C17/compiled/%s/%s", l.Name, off), c, "%s", d)
+			}
 		}
 	}
 	r.Extra("rejecting_sites", sites)
